@@ -1,6 +1,9 @@
-(* C16 - Library-raised errors never leave objects permanently damaged (signal layer).
+(* C16 - Library-raised errors never leave objects permanently damaged (signal layer; the property layer at the end).
    The model's calls end with `Some e` when the library raises; the theorems below hold whatever the outcome. *)
+From Coq Require Import List ZArith.
+Import ListNotations.
 From KDB Require Import Util GenIdx GenIdxProofs SigDefs SigInv SigTheorems.
+From KDB Require PropDefs PropFlags PropLink PropLinkTheorems.
 
 (* after EVERY top-level call - including calls that ended in out_of_range, "already emitting", "evaluator gone",
    also when raised from inside nested emissions / evaluation passes - no Impl is left emitting, no evaluator
@@ -34,3 +37,41 @@ Example C16_failing_history :
                         OConnect 0 1 101 1 [] 1; OEmit 0 [7%Z]] in
   hd (EvDone None) (w_trace w) = EvDone (Some ExEvaluatorGone).
 Proof. vm_compute. reflexivity. Qed.
+
+(* ---- property layer (coq/PropDefs.v) ---- *)
+(* whatever a top-level call on properties / bindings answers - normally, or ReadOnlyProperty, PropertyDestroyedError, "already
+   emitting", an exception thrown by a user function (okx: anything but the model's own "not a legal script / not modelled / out
+   of fuel") - the link structure of the world is intact afterwards: every leaf of a live binding refers to an existing property
+   and is subscribed to exactly its signals, every subscription belongs to a live object, updater and target are mutual
+   (pinv; observers may write or reset other properties, any expression, both evaluation orders) *)
+Theorem C16_property_links_survive_every_library_exception :
+  forall fn rtl fuel w o w' e,
+    PropLink.pinv w -> PropFlags.NOEMIT w -> PropDefs.step1 fn rtl fuel w o = (w', e) -> PropLink.okx e -> PropLink.pinv w'.
+Proof. exact PropLinkTheorems.step1_pinv. Qed.
+Print Assumptions C16_property_links_survive_every_library_exception.
+
+(* ... and no signal of any property is left in the middle of an emission, however the call ended: the next assignment or
+   emission is not answered with "already emitting" because of an earlier failure *)
+Theorem C16_no_property_signal_left_emitting :
+  forall fn rtl fuel w o, PropFlags.NOEMIT w -> PropFlags.NOEMIT (PropDefs.step fn rtl fuel w o).
+Proof. exact PropFlags.step_noemit. Qed.
+Print Assumptions C16_no_property_signal_left_emitting.
+
+(* in every world reached by a history whose calls are legal scripts (failing ones included) both hold *)
+Theorem C16_property_layer_healthy_reachable :
+  forall fn rtl fuel ops, PropLinkTheorems.run_ok fn rtl fuel PropDefs.world0 ops ->
+    PropLink.pinv (PropDefs.run fn rtl fuel ops) /\ PropFlags.NOEMIT (PropDefs.run fn rtl fuel ops).
+Proof. intros fn rtl fuel ops H. exact (PropLinkTheorems.run_pinv fn rtl fuel ops PropDefs.world0 PropLinkTheorems.pinv_world0 PropLinkTheorems.noemit_world0 H). Qed.
+Print Assumptions C16_property_layer_healthy_reachable.
+
+(* non-vacuity: a write to a bound property fails with ReadOnlyProperty; after reset() the same write succeeds and is seen *)
+Example C16_property_example :
+  let fn := fun (f : nat) (l : list Z) => Some (fold_right Z.add 0%Z l) in
+  let ops := [PropDefs.PNew 0 1%Z; PropDefs.PBind 1 (PropDefs.EOp1 0 (PropDefs.EProp 0)) PropDefs.MImmediate;
+              PropDefs.PSet 1 9%Z PropDefs.WSet; PropDefs.PReset 1; PropDefs.PSet 1 9%Z PropDefs.WSet; PropDefs.PGet 1] in
+  PropLinkTheorems.run_ok fn true 8 PropDefs.world0 ops /\
+  map (fun e => match e with PropDefs.EvDone x => x | _ => None end)
+      (filter (fun e => match e with PropDefs.EvDone _ => true | _ => false end) (PropDefs.w_trace (PropDefs.run fn true 8 ops)))
+    = [None; None; None; Some PropDefs.PxReadOnly; None; None] /\
+  nth_error (PropDefs.w_trace (PropDefs.run fn true 8 ops)) 1 = Some (PropDefs.EvVal (Some 9%Z)).
+Proof. vm_compute. repeat split; reflexivity. Qed.
